@@ -114,7 +114,7 @@ def render(t, agent_id: str) -> str:
 
 class Snapshot:
     """What an entry looked like when it was logged (the oracle's data)."""
-    __slots__ = ("type", "name", "meta", "blocks", "headers", "extended")
+    __slots__ = ("type", "name", "meta", "blocks", "headers", "extended", "serial")
 
     def __init__(self):
         self.type = ""
@@ -351,7 +351,8 @@ def run_plan(plan: dict) -> RunResult:
     with SimEnv(plan.get("seed", 0), log_level=logging.ERROR) as env:
         loop = env.loop
         snaps: Dict[int, Snapshot] = {}
-        order: List[Any] = []           # every entry the filtering logger accepted, in arrival order (strong refs)
+        serial = [0]                    # arrival numbers (the harness keeps NO reference to entries the model has let go:
+        #                                 the real logger must be free to release them, and their addresses to be reused)
         model = {"ring": [], "visible": [], "paused": False, "tree": ["leaf", LEAVES.index(("name", "*"))],
                  "filter_text": ""}
         state = {"session_gone": False, "seen_true": False, "seen_false": False}
@@ -364,8 +365,9 @@ def run_plan(plan: dict) -> RunResult:
                 was_paused = self.paused
                 ret = super().add_log_entry(entry)
                 if not was_paused:
+                    serial[0] += 1
+                    snap.serial = serial[0]
                     snaps[id(entry)] = snap
-                    order.append(entry)
                     ring = model["ring"]
                     ring.append(entry)
                     if len(ring) > cfg["maxlen"]:
@@ -382,6 +384,8 @@ def run_plan(plan: dict) -> RunResult:
                         return ret
                     if want:
                         model["visible"].append(entry)
+                    gone = None
+                    prune()
                     if bool(ret) != want:
                         failed = [r for r in env.log.records if str(r.msg).startswith("Failed to filter queued message")]
                         if failed:
@@ -477,10 +481,14 @@ def run_plan(plan: dict) -> RunResult:
                                want=[order_index(e) for e in model["ring"]])
 
         def order_index(e):
-            for i, x in enumerate(order):
-                if x is e:
-                    return i
-            return -1
+            sn = snaps.get(id(e))
+            return sn.serial if sn is not None else -1
+
+        def prune():
+            """Forget every entry the model no longer retains."""
+            live = {id(e) for e in model["ring"]} | {id(e) for e in model["visible"]}
+            for k in [k for k in snaps if k not in live]:
+                del snaps[k]
 
         def check_matches(after: str):
             """match(entry, short_circuit=True/False) agree as booleans and equal the evaluator, without raising."""
@@ -548,6 +556,8 @@ def run_plan(plan: dict) -> RunResult:
             except Exception as ex:
                 return violate("HARNESS/evaluator-raised", exc=repr(ex)[:200], filter=text)
             model["tree"], model["filter_text"], model["visible"] = tree, text, aged + fresh
+            old_visible = aged = fresh = None
+            prune()
             try:
                 flogger.set_filter(text)
             except Exception as ex:
@@ -563,6 +573,7 @@ def run_plan(plan: dict) -> RunResult:
             res.probe("clear")
             flogger.clear()
             model["ring"], model["visible"] = [], []
+            prune()
             check_view("clear")
 
         def op_export(st):
@@ -686,10 +697,11 @@ def run_plan(plan: dict) -> RunResult:
                     break
         res.sim_time = loop.time()
         res.steps = len(plan["steps"])
-        for e in order:
-            s = snaps[id(e)]
-            env.tr("entry", s.type, s.name)
-            env.ab("entry", s.type)
+        env.tr("entries", serial[0])
+        for e in list(model["ring"]):
+            sn = snaps[id(e)]
+            env.tr("entry", sn.serial, sn.type, sn.name)
+            env.ab("entry", sn.type)
         res.digest = env.digest()
         res.abstract = env.abstract_digest()
         http.shutdown()
